@@ -185,11 +185,12 @@ CLAIMS = {
             "JsonReader.tla models the JSON datasource (line reader, token channel bounding in-flight batches, shared parser pool, per-reader output channel, "
             "in-order hand-over, early cancel, two concurrent readers); TLC checks in-order delivery, no loss/duplication, deadlock freedom and termination "
             "for every interleaving. The real datasource then runs with JSONWorker/JSONReader hooks: forced batch release orders generated from the model's "
-            "reorderings and seeded delays, files of 0..3000 rows around batch boundaries, joins of two files. Lines.tla defines the split of a byte string "
+            "reorderings and seeded delays, files of 0..3000 rows around batch boundaries, joins of two files; executions recorded at the reader / worker / consumer "
+            "observation points (files up to 9 000 / 30 000 lines, slow consumer, LIMIT) are validated by TLC against JsonReaderTrace.tla. Lines.tla defines the split of a byte string "
             "by a separator (TLC exports the cases); CSV/JSON/lines/stdin files with generated contents are compared row by row with the file's rows; parquet files "
             "(required/optional/repeated scalars and groups) are read whole and through column projections and compared with the rows written. "
             "One genuine defect (multi-character separator) repaired.",
-            "Parquet files are written by the harness value by value with explicit repetition/definition levels (the page writer is the vendored library's). Trusted: hooks, file writers.", "TLA+ spec + TLC model checking + schedule replay on the real datasource through hooks + TLC-exported split cases",
+            "Parquet files are written by the harness value by value with explicit repetition/definition levels (the page writer is the vendored library's). Trusted: hooks, file writers.", "TLA+ spec + TLC model checking + schedule replay on the real datasource through hooks + TLC trace validation of recorded executions + TLC-exported split cases",
             "DESIGN.md 6/C23"),
     "C29": ("model_checking",
             "Deadlock freedom and termination are decided on JoinMC.tla (stream/outer joins: every interleaving and close order) and JsonReader.tla (reader, "
